@@ -121,9 +121,33 @@ Definition record (pm : pmatch) (b : Z) : list (Z * Z) :=
 
 Definition find_bead (beads : list ibead) (k : Z) : option ibead := find (fun i => Z.eqb (i_key i) k) beads.
 
+(* every way to write the modification names of a group as a disjoint union of known name tuples (each used once) *)
+Fixpoint exact_covers (opts : list (list Z)) (to_cover : list Z) : list (list (list Z)) :=
+  match opts with
+  | [] => match to_cover with [] => [[]] | _ => [] end
+  | o :: r => exact_covers r to_cover
+              ++ (match o with
+                  | [] => []
+                  | _ => if distinctZ o && forallb (fun i => zmem i to_cover) o
+                         then map (cons o) (exact_covers r (filter (fun i => negb (zmem i o)) to_cover)) else []
+                  end)
+  end.
+
+(* when the modifications of a group of residues can be described by the known modification mappings in exactly one way,
+   every place where one of those mappings fits is among the placements that were applied *)
+Definition unique_cover_applied (MMs : list modmap) (L : labelled) (mfound : list (Z * list (Z * list (Z * Z)))) : bool :=
+  forallb (fun g =>
+     match exact_covers (map mm_names MMs) (group_names L g) with
+     | [c] => forallb (fun o => forallb (fun M => if list_eqbZ (mm_names M) o
+                                                  then forallb (fun p => existsb (m2b_same (mtranslate M p)) (map snd mfound)) (mm_placements M L)
+                                                  else true) MMs) c
+     | _ => true
+     end) (components (S (List.length (labelled_atoms L))) L (labelled_atoms L)).
+
 Definition prop (k : case) : bool :=
   match k with
   | CDoMods fast Ms MMs L found mfound _ result =>
+      if negb (unique_cover_applied MMs L mfound) then false else
       match result with
       | None =>
           (* an error is justified only if some modification placement refers to an existing particle whose name none of
